@@ -1,6 +1,8 @@
 package main
 
 import (
+	"bytes"
+	"go/printer"
 	"fmt"
 	"go/ast"
 	"go/token"
@@ -467,4 +469,69 @@ func genJksFacts() {
 	stops := flag != "" && loops > 0 && loops == guarded
 	writeGen("JksFacts", fmt.Sprintf("def jksStopsOnTruncation : Bool := %v\n", stops))
 	facts["jks.stopsOnTruncation"] = stops
+}
+
+// genHardeningFacts: guards added after the resource audit
+//   jks.recovers               : readKeystore installs a recover() and is the only caller of keystore.InsecureParse
+//   pgp.dsaSizeGuard           : parseDSA returns before building the key when p or q exceed a bound on their bit length
+//   armor.headerValueBounded   : Decode refuses to grow a header value beyond a bound before appending a continuation piece
+func genHardeningFacts() {
+	j := parse("internal/file/jks.go")
+	rk := findFunc(j, "readKeystore")
+	facts["jks.recovers"] = rk != nil && containsCall(rk.Body, "recover")
+
+	pk := parse("internal/openpgp/packet/public_key.go")
+	var pd *ast.FuncDecl
+	for _, d := range pk.Decls {
+		if fd, ok := d.(*ast.FuncDecl); ok && fd.Name.Name == "parseDSA" && fd.Recv != nil {
+			pd = fd
+		}
+	}
+	guard := false
+	if pd != nil {
+		built := false
+		for _, st := range pd.Body.List {
+			if containsCall(st, "new") {
+				built = true
+			}
+			if is, ok := st.(*ast.IfStmt); ok && !built && endsInReturn(is.Body) {
+				src := nodeText(is.Cond)
+				if strings.Contains(src, "p.bitLength >") && strings.Contains(src, "q.bitLength >") {
+					guard = true
+				}
+			}
+		}
+	}
+	facts["pgp.dsaSizeGuard"] = guard
+
+	ar := parse("internal/openpgp/armor/armor.go")
+	dec := findFunc(ar, "Decode")
+	bounded := false
+	if dec != nil {
+		ast.Inspect(dec.Body, func(n ast.Node) bool {
+			is, ok := n.(*ast.IfStmt)
+			if !ok {
+				return true
+			}
+			if id, ok := is.Cond.(*ast.Ident); ok && id.Name == "isContinuation" {
+				// inside: a length test that returns, placed before the `+=`
+				for _, st := range is.Body.List {
+					if g, ok := st.(*ast.IfStmt); ok && endsInReturn(g.Body) && strings.Contains(nodeText(g.Cond), "len(") && strings.Contains(nodeText(g.Cond), ">") {
+						bounded = true
+					}
+					if as, ok := st.(*ast.AssignStmt); ok && as.Tok == token.ADD_ASSIGN {
+						return false
+					}
+				}
+			}
+			return true
+		})
+	}
+	facts["armor.headerValueBounded"] = bounded
+}
+
+func nodeText(n ast.Node) string {
+	var b bytes.Buffer
+	_ = printer.Fprint(&b, fset, n)
+	return b.String()
 }
